@@ -278,6 +278,11 @@ where
         let b: Array2<f64> = self.bsplmatrix(tau, left_n, right_n);
         let ya: Array1<T> = Array1::from_vec(y.to_owned());
         let c: Array1<T> = fdsolve(&b.view(), &ya.view(), allow_lsq);
+        if c.iter().any(|v| v.partial_cmp(v).is_none()) {
+            return Err(PyValueError::new_err(
+                "`csolve` failed: the spline collocation matrix is singular for the given `tau`.",
+            ));
+        }
         self.c = Some(c);
         Ok(())
     }
